@@ -35,11 +35,12 @@ def cases(ctx):
     yield from msgwork.sweep_cases(ctx, cids, encs)
     yield from msgwork.single_cases(ctx, cids, encs)
     yield from msgwork.subset_cases(ctx, cids, encs, 14000 if quick else 500000)
+    yield from msgwork.edited_config_cases(ctx, cids, encs[:4], 1500 if quick else 30000)
 
 
 def judge(ctx, case):
     iso = ctx.iso
-    cfg = msgwork.cfg_of(case['cfg'])
+    cfg = msgwork.materialise_cfg(ctx, case, iso.dumps)
     msg = gen.unjsonable(case['msg'])
     enc, hexbm = case['enc'], case['hex']
     want = gen.expected_roundtrip(msg, cfg)
